@@ -146,6 +146,8 @@ class RunnerLoop(PathInterp):
         res, rep, saved, pend, extra = el
         if name == self.R:
             res = _rk(v) if (isinstance(v, tuple) and v and v[0] == 'r') else (None if v == NONE else TOP)
+            if any(k == '__nn_' + name for k, _ in extra):
+                extra = frozenset((k, w) for k, w in extra if k != '__nn_' + name)      # a new object: the "known not None" mark goes
         elif name == self.N:
             rep = _rk(v) if (isinstance(v, tuple) and v and v[0] == 'c') else TOP
         else:
@@ -384,6 +386,18 @@ class RunnerLoop(PathInterp):
         v = getattr(s, 'value', None)
         if v is None:
             return st
+        # a named test: `flag = X is None` / `flag = X is not None` / `flag = not ...` - the state is split as the test would
+        # split it and the flag remembers the side (later `if flag:` selects exactly those elements)
+        if len(tg) == 1 and isinstance(tg[0], ast.Name) and tg[0].id not in (self.R, self.N) and \
+                (isinstance(v, ast.Compare) or (isinstance(v, ast.UnaryOp) and isinstance(v.op, ast.Not))):
+            t_side, f_side = self.on_test(v, st)
+            if not (t_side is st and f_side is st):
+                out = set()
+                for side, flag in ((t_side, True), (f_side, False)):
+                    for e in (side or ()):
+                        e2 = self.put(e, tg[0].id, ('b', flag))
+                        out.add(self._normal((e2[0], e2[1], e2[2], None, e2[4])))
+                return frozenset(out)
 
         def asg(e):
             val = self._pend_value(e, v)
@@ -410,9 +424,13 @@ class RunnerLoop(PathInterp):
                 if v == NONE:
                     none_side.add(e)
                 elif isinstance(v, tuple) and v[0] == 'r' and v[1] == 'L':
-                    # a loaded object may be None (nothing to resume) ...
-                    none_side.add(self._normal(self.put(e, x, NONE)))
-                    some_side.add(e)
+                    # a loaded object may be None (nothing to resume) - unless an earlier test already found it not None
+                    if self.get(e, '__nn_' + x) == ('b', True):
+                        some_side.add(e)
+                    else:
+                        none_side.add(self._normal(self.put(e, x, NONE)))
+                        r_, n_, sv_, pd_, ex_ = e
+                        some_side.add((r_, n_, sv_, pd_, frozenset(dict(ex_, **{'__nn_' + x: ('b', True)}).items())))
                 elif isinstance(v, tuple) and v[0] == 'r':
                     some_side.add(e)            # a results object produced by a run is never None
                 else:
@@ -423,6 +441,18 @@ class RunnerLoop(PathInterp):
             if isinstance(test.ops[0], ast.Is):
                 return ns, ss
             return ss, ns
+        if isinstance(test, ast.Name) and test.id not in (self.R, self.N):
+            ts, fs = set(), set()
+            for e in st:
+                v = self.get(e, test.id)
+                if v == ('b', True):
+                    ts.add(e)
+                elif v == ('b', False):
+                    fs.add(e)
+                else:
+                    ts.add(e)
+                    fs.add(e)
+            return (frozenset(ts) or None), (frozenset(fs) or None)
         if isinstance(test, ast.Constant) and test.value is True:
             return st, None
         if isinstance(test, ast.UnaryOp) and isinstance(test.op, ast.Not):
